@@ -1,6 +1,7 @@
 import JominiModel.Model.TextReader
 import JominiModel.Spec.TextReader
 import JominiModel.Proofs.SwarReader
+import JominiModel.Proofs.TextReaderStream
 /-
 C09 (text): `skip_container`'s 8-bytes-at-a-time path is unobservable.
 `C09_*` theorems live here so that the coordinator can re-export them from Props/C09.lean.
@@ -242,5 +243,369 @@ theorem C09_skipScan_eq_bytewise (w : Bytes) : ∀ (fuel : Nat) (st : SkipSt) (d
               simpa using this.symm
         · simp only [hbig, if_false]
           exact hbyte
+
+end Jomini.TextReader
+
+namespace Jomini.TextReader
+open Jomini Jomini.TextReader.Spec Jomini.TextReader.Swar
+
+/-! ### the bytewise reference as a left-to-right state machine -/
+
+def shiftSS (k : Nat) : SkipScan → SkipScan
+  | .done p => .done (p + k)
+  | .refill st d p => .refill st d (p + k)
+  | x => x
+
+theorem skipRef_quote_bs {c : UInt8} {tl : Bytes} {depth : Int} {ptr : Nat} (hc : (c == 92) = true) :
+    skipRef (c :: tl) .quote depth ptr =
+      match tl with
+      | [] => .refill .quote depth ptr
+      | [_] => .refill .quote depth ptr
+      | _ :: e :: r => skipRef (e :: r) .quote depth (ptr + 2) := by
+  rcases tl with _ | ⟨x, _ | ⟨d, r⟩⟩ <;> simp [skipRef, hc]
+
+theorem skipRef_none_cons (c : UInt8) (rest : Bytes) (depth : Int) (ptr : Nat) :
+    skipRef (c :: rest) .none depth ptr =
+      if c == 123 then skipRef rest .none (depth + 1) (ptr + 1)
+      else if c == 125 then
+        if depth - 1 == 0 then .done (ptr + 1) else skipRef rest .none (depth - 1) (ptr + 1)
+      else if c == 34 then skipRef rest .quote depth (ptr + 1)
+      else if c == 35 then skipRef rest .comment depth (ptr + 1)
+      else skipRef rest .none depth (ptr + 1) := by
+  rcases rest with _ | ⟨x, _ | ⟨d, r⟩⟩ <;> simp [skipRef]
+
+theorem skipRef_comment_cons (c : UInt8) (rest : Bytes) (depth : Int) (ptr : Nat) :
+    skipRef (c :: rest) .comment depth ptr =
+      if c == 10 then skipRef rest .none depth (ptr + 1) else skipRef rest .comment depth (ptr + 1) := by
+  rcases rest with _ | ⟨x, _ | ⟨d, r⟩⟩ <;> simp [skipRef]
+
+theorem skipRef_nil (st : SkipSt) (depth : Int) (ptr : Nat) : skipRef [] st depth ptr = .refill st depth ptr := by
+  cases st <;> simp [skipRef]
+
+theorem skipRef_shift (k : Nat) (n : Nat) : ∀ (l : Bytes) (st : SkipSt) (depth : Int) (ptr : Nat), l.length ≤ n →
+    skipRef l st depth (ptr + k) = shiftSS k (skipRef l st depth ptr) := by
+  induction n with
+  | zero =>
+    intro l st depth ptr hl
+    have : l = [] := List.eq_nil_of_length_eq_zero (by omega)
+    subst this; simp [skipRef_nil, shiftSS]
+  | succ n ih =>
+    intro l st depth ptr hl
+    cases l with
+    | nil => simp [skipRef_nil, shiftSS]
+    | cons c rest =>
+      have hr : rest.length ≤ n := by simp at hl; omega
+      have e : ptr + k + 1 = (ptr + 1) + k := by omega
+      cases st with
+      | none =>
+        simp only [skipRef_none_cons, e]
+        split; · exact ih rest _ _ _ hr
+        split
+        · split
+          · simp [shiftSS]
+          · exact ih rest _ _ _ hr
+        split; · exact ih rest _ _ _ hr
+        split; · exact ih rest _ _ _ hr
+        exact ih rest _ _ _ hr
+      | comment =>
+        simp only [skipRef_comment_cons, e]
+        split <;> exact ih rest _ _ _ hr
+      | quote =>
+        by_cases hc : (c == 92) = true
+        · simp only [skipRef_quote_bs hc]
+          rcases rest with _ | ⟨x, _ | ⟨d, r⟩⟩
+          · simp [shiftSS]
+          · simp [shiftSS]
+          · simp only
+            have e2 : ptr + k + 2 = (ptr + 2) + k := by omega
+            rw [e2]; exact ih (d :: r) _ _ _ (by simp at hr ⊢; omega)
+        · simp only [skipRef_quote_other hc, e]
+          split <;> exact ih rest _ _ _ hr
+
+/-- where a scan that ran out of bytes stopped: inside the list, at most two bytes before its end -/
+theorem skipRef_refill_bounds (n : Nat) : ∀ (l : Bytes) (st : SkipSt) (depth : Int) (ptr : Nat) (st' : SkipSt) (d' : Int) (p : Nat),
+    l.length ≤ n → skipRef l st depth ptr = .refill st' d' p → ptr ≤ p ∧ p ≤ ptr + l.length ∧ ptr + l.length ≤ p + 2 := by
+  induction n with
+  | zero =>
+    intro l st depth ptr st' d' p hl h
+    have : l = [] := List.eq_nil_of_length_eq_zero (by omega)
+    subst this; simp [skipRef_nil] at h; omega
+  | succ n ih =>
+    intro l st depth ptr st' d' p hl h
+    cases l with
+    | nil => simp [skipRef_nil] at h; simp; omega
+    | cons c rest =>
+      have hr : rest.length ≤ n := by simp at hl; omega
+      have fin : ∀ {st0 : SkipSt} {d0 : Int}, skipRef rest st0 d0 (ptr + 1) = .refill st' d' p →
+          ptr ≤ p ∧ p ≤ ptr + (c :: rest).length ∧ ptr + (c :: rest).length ≤ p + 2 := by
+        intro st0 d0 hh
+        have := ih rest st0 d0 (ptr + 1) st' d' p hr hh
+        simp; omega
+      cases st with
+      | none =>
+        rw [skipRef_none_cons] at h
+        split at h; · exact fin h
+        split at h
+        · split at h
+          · simp at h
+          · exact fin h
+        split at h; · exact fin h
+        split at h; · exact fin h
+        exact fin h
+      | comment =>
+        rw [skipRef_comment_cons] at h
+        split at h <;> exact fin h
+      | quote =>
+        by_cases hc : (c == 92) = true
+        · rw [skipRef_quote_bs hc] at h
+          rcases rest with _ | ⟨x, _ | ⟨d, r⟩⟩
+          · simp at h; simp; omega
+          · simp at h; simp; omega
+          · simp only at h
+            have := ih (d :: r) .quote depth (ptr + 2) st' d' p (by simp at hr ⊢; omega) h
+            simp at this ⊢; omega
+        · rw [skipRef_quote_other hc] at h
+          split at h <;> exact fin h
+
+/-- **refilling loses nothing**: scanning `w ++ b` is scanning `w` and, if that runs out of bytes at `p` in state
+`(st', d')`, continuing on the not yet consumed bytes of `w` followed by `b`. -/
+theorem skipRef_append (b : Bytes) (n : Nat) : ∀ (w : Bytes) (st : SkipSt) (depth : Int) (ptr : Nat), w.length ≤ n →
+    skipRef (w ++ b) st depth ptr =
+      match skipRef w st depth ptr with
+      | .done p => .done p
+      | .refill st' d' p => skipRef (w.drop (p - ptr) ++ b) st' d' p
+      | x => x := by
+  induction n with
+  | zero =>
+    intro w st depth ptr hl
+    have : w = [] := List.eq_nil_of_length_eq_zero (by omega)
+    subst this; simp [skipRef_nil]
+  | succ n ih =>
+    intro w st depth ptr hl
+    cases w with
+    | nil => simp [skipRef_nil]
+    | cons c rest =>
+      have hr : rest.length ≤ n := by simp at hl; omega
+      -- one byte consumed, then the induction hypothesis
+      have step : ∀ (st0 : SkipSt) (d0 : Int),
+          skipRef (rest ++ b) st0 d0 (ptr + 1) =
+            match skipRef rest st0 d0 (ptr + 1) with
+            | .done p => .done p
+            | .refill st' d' p => skipRef ((c :: rest).drop (p - ptr) ++ b) st' d' p
+            | x => x := by
+        intro st0 d0
+        rw [ih rest st0 d0 (ptr + 1) hr]
+        cases hs : skipRef rest st0 d0 (ptr + 1) with
+        | done p => rfl
+        | refill st' d' p =>
+          have := skipRef_refill_bounds _ rest st0 d0 (ptr + 1) st' d' p (Nat.le_refl _) hs
+          simp only
+          have e : p - ptr = (p - (ptr + 1)) + 1 := by omega
+          rw [e]; rfl
+        | ub => rfl
+        | fuel => rfl
+      cases st with
+      | none =>
+        simp only [List.cons_append, skipRef_none_cons]
+        split; · exact step _ _
+        split
+        · split
+          · rfl
+          · exact step _ _
+        split; · exact step _ _
+        split; · exact step _ _
+        exact step _ _
+      | comment =>
+        simp only [List.cons_append, skipRef_comment_cons]
+        split <;> exact step _ _
+      | quote =>
+        by_cases hc : (c == 92) = true
+        · rcases rest with _ | ⟨x, _ | ⟨d, r⟩⟩
+          · simp [skipRef_quote_bs hc]
+          · simp [skipRef_quote_bs hc]
+          · simp only [List.cons_append, skipRef_quote_bs hc]
+            rw [show d :: (r ++ b) = (d :: r) ++ b by rfl, ih (d :: r) .quote depth (ptr + 2) (by simp at hr ⊢; omega)]
+            cases hs : skipRef (d :: r) .quote depth (ptr + 2) with
+            | done p => rfl
+            | refill st' d' p =>
+              have := skipRef_refill_bounds _ (d :: r) .quote depth (ptr + 2) st' d' p (Nat.le_refl _) hs
+              simp only
+              have e : p - ptr = (p - (ptr + 2)) + 2 := by omega
+              rw [e]; rfl
+            | ub => rfl
+            | fuel => rfl
+        · simp only [List.cons_append, skipRef_quote_other hc]
+          split <;> exact step _ _
+
+end Jomini.TextReader
+
+namespace Jomini.TextReader
+open Jomini Jomini.TextReader.Spec Jomini.TextReader.Swar
+
+theorem skipRef_done_bounds (n : Nat) : ∀ (l : Bytes) (st : SkipSt) (depth : Int) (ptr p : Nat),
+    l.length ≤ n → skipRef l st depth ptr = .done p → ptr < p ∧ p ≤ ptr + l.length := by
+  induction n with
+  | zero =>
+    intro l st depth ptr p hl h
+    have : l = [] := List.eq_nil_of_length_eq_zero (by omega)
+    subst this; simp [skipRef_nil] at h
+  | succ n ih =>
+    intro l st depth ptr p hl h
+    cases l with
+    | nil => simp [skipRef_nil] at h
+    | cons c rest =>
+      have hr : rest.length ≤ n := by simp at hl; omega
+      have fin : ∀ {st0 : SkipSt} {d0 : Int}, skipRef rest st0 d0 (ptr + 1) = .done p →
+          ptr < p ∧ p ≤ ptr + (c :: rest).length := by
+        intro st0 d0 hh
+        have := ih rest st0 d0 (ptr + 1) p hr hh
+        simp; omega
+      cases st with
+      | none =>
+        rw [skipRef_none_cons] at h
+        split at h; · exact fin h
+        split at h
+        · split at h
+          · simp at h; subst h; simp
+          · exact fin h
+        split at h; · exact fin h
+        split at h; · exact fin h
+        exact fin h
+      | comment =>
+        rw [skipRef_comment_cons] at h
+        split at h <;> exact fin h
+      | quote =>
+        by_cases hc : (c == 92) = true
+        · rw [skipRef_quote_bs hc] at h
+          rcases rest with _ | ⟨x, _ | ⟨d, r⟩⟩
+          · simp at h
+          · simp at h
+          · simp only at h
+            have := ih (d :: r) .quote depth (ptr + 2) p (by simp at hr ⊢; omega) h
+            simp at this ⊢; omega
+        · rw [skipRef_quote_other hc] at h
+          split at h <;> exact fin h
+
+/-- what `skip_container` must return according to the bytewise reference over the whole remaining input `d` -/
+def SkipOut (res : Res Unit) (cap pos : Nat) (bom : Bom) (d : Bytes) (st : SkipSt) (depth : Int) : Prop :=
+  match skipRef d st depth 0 with
+  | .done p => ∃ r', res = .ok r' () ∧ Rel r' (pos + p) bom (d.drop p) ∧ r'.cap = cap
+  | .refill _ _ _ => ∃ r', res = .err r' .eof
+  | _ => True
+
+/-- **`skip_container` under every schedule**: with a slice reader or a buffer of at least three bytes (the scan carries
+at most a backslash and the byte after it across a refill), the streamed skip either reports an I/O error of the `Read`,
+or it does exactly what the bytewise reference does on the whole remaining input: it stops right after the matching
+close (reader related to the rest), or reports `Eof` when the input ends first. -/
+theorem skipLoop_spec (n : Nat) : ∀ (r : Reader) (pos : Nat) (bom : Bom) (d : Bytes) (st : SkipSt) (depth : Int) (fuel : Nat),
+    r.src.rest.length ≤ n → Rel r pos bom d → (r.cap = 0 ∨ 3 ≤ r.cap) → n + 1 ≤ fuel →
+    (∃ r', skipLoop fuel r st depth 0 = .err r' .io) ∨
+    SkipOut (skipLoop fuel r st depth 0) r.cap pos bom d st depth := by
+  induction n with
+  | zero =>
+    intro r pos bom d st depth fuel hn hrel hcap hfuel
+    obtain ⟨f, rfl⟩ : ∃ f, fuel = f + 1 := ⟨fuel - 1, by omega⟩
+    have he : r.src.rest = [] := List.eq_nil_of_length_eq_zero (by omega)
+    have hd : d = r.win := by rw [← hrel.data, he]; simp
+    have hscan : skipScan r.win (r.win.length + 2) st depth 0 = skipRef r.win st depth 0 := by
+      have := C09_skipScan_eq_bytewise r.win (r.win.length + 2) st depth 0 (Nat.zero_le _) (by omega)
+      simpa using this
+    rw [skipLoop, hscan]
+    unfold SkipOut
+    rw [hd]
+    cases hs : skipRef r.win st depth 0 with
+    | done p =>
+      right
+      have hb := skipRef_done_bounds _ r.win st depth 0 p (Nat.le_refl _) hs
+      obtain ⟨r', ha, hrel', _, _, hc'⟩ := hrel.advance p (by omega)
+      simp only [ha]
+      rw [hd] at hrel'
+      exact ⟨r', rfl, hrel', hc'⟩
+    | refill st' d' p =>
+      have hb := skipRef_refill_bounds _ r.win st depth 0 st' d' p (Nat.le_refl _) hs
+      obtain ⟨r0, ha, hrel0, hw0, hs0, hc0⟩ := hrel.advance p (by omega)
+      simp only [ha]
+      have hrest0 : r0.src.rest = [] := by rw [hs0]; exact he
+      rcases hrel0.fill with ⟨rio, hf, _⟩ | ⟨hf, h1, h2⟩ | ⟨_, r1, hf, _⟩ | ⟨hne, _⟩
+      · left; rw [hf]; exact ⟨rio, rfl⟩
+      · exfalso
+        have : r0.win.length ≤ 2 := by rw [hw0]; simp; omega
+        rcases hcap with h | h
+        · exact h1 (by rw [hc0]; exact h)
+        · rw [hc0] at h2; omega
+      · right; rw [hf]; exact ⟨r1, rfl⟩
+      · exact absurd hrest0 hne
+    | ub => right; trivial
+    | fuel => right; trivial
+  | succ n ih =>
+    intro r pos bom d st depth fuel hn hrel hcap hfuel
+    obtain ⟨f, rfl⟩ : ∃ f, fuel = f + 1 := ⟨fuel - 1, by omega⟩
+    have hd : d = r.win ++ r.src.rest := hrel.data.symm
+    have hscan : skipScan r.win (r.win.length + 2) st depth 0 = skipRef r.win st depth 0 := by
+      have := C09_skipScan_eq_bytewise r.win (r.win.length + 2) st depth 0 (Nat.zero_le _) (by omega)
+      simpa using this
+    have happ := skipRef_append r.src.rest _ r.win st depth 0 (Nat.le_refl _)
+    rw [← hd] at happ
+    rw [skipLoop, hscan]
+    unfold SkipOut
+    cases hs : skipRef r.win st depth 0 with
+    | done p =>
+      right
+      rw [hs] at happ
+      simp only at happ
+      rw [happ]
+      have hb := skipRef_done_bounds _ r.win st depth 0 p (Nat.le_refl _) hs
+      obtain ⟨r', ha, hrel', _, _, hc'⟩ := hrel.advance p (by omega)
+      simp only [ha]
+      exact ⟨r', rfl, hrel', hc'⟩
+    | refill st' d' p =>
+      rw [hs] at happ
+      simp only [Nat.sub_zero] at happ
+      have hb := skipRef_refill_bounds _ r.win st depth 0 st' d' p (Nat.le_refl _) hs
+      obtain ⟨r0, ha, hrel0, hw0, hs0, hc0⟩ := hrel.advance p (by omega)
+      simp only [ha]
+      have hdp : d.drop p = r.win.drop p ++ r.src.rest := by rw [hd, List.drop_append_of_le_length (by omega)]
+      rw [hdp] at hrel0
+      rcases hrel0.fill with ⟨rio, hf, _⟩ | ⟨hf, h1, h2⟩ | ⟨he0, r1, hf, _⟩ | ⟨hne, r1, k, hf, hrel1, hk, hw1, hr1, hc1, _⟩
+      · left; rw [hf]; exact ⟨rio, rfl⟩
+      · exfalso
+        have : r0.win.length ≤ 2 := by rw [hw0]; simp; omega
+        rcases hcap with h | h
+        · exact h1 (by rw [hc0]; exact h)
+        · rw [hc0] at h2; omega
+      · right
+        rw [hf]
+        have he : r.src.rest = [] := by rw [← hs0]; exact he0
+        have : d = r.win := by rw [hd, he]; simp
+        rw [this, hs]
+        exact ⟨r1, rfl⟩
+      · rw [hf]
+        simp only
+        rw [hs0] at hk hr1
+        have hl1 : r1.src.rest.length ≤ n := by rw [hr1]; simp; omega
+        have hcap1 : r1.cap = 0 ∨ 3 ≤ r1.cap := by rw [hc1, hc0]; exact hcap
+        rcases ih r1 (pos + p) bom _ st' d' f hl1 hrel1 hcap1 (by omega) with hio | hok
+        · left; exact hio
+        · right
+          rw [happ]
+          have hsh := skipRef_shift p _ (r.win.drop p ++ r.src.rest) st' d' 0 (Nat.le_refl _)
+          simp only [Nat.zero_add] at hsh
+          rw [hsh]
+          unfold SkipOut at hok
+          cases hx : skipRef (r.win.drop p ++ r.src.rest) st' d' 0 with
+          | done q =>
+            rw [hx] at hok
+            simp only [shiftSS] at hok ⊢
+            obtain ⟨r', h1, h2, h3⟩ := hok
+            refine ⟨r', h1, ?_, by rw [h3, hc1, hc0]⟩
+            have e1 : pos + (q + p) = pos + p + q := by omega
+            have e2 : d.drop (q + p) = (r.win.drop p ++ r.src.rest).drop q := by
+              rw [← hdp, List.drop_drop]; congr 1; omega
+            rw [e1, e2]; exact h2
+          | refill a b c => rw [hx] at hok; simpa [shiftSS] using hok
+          | ub => simp [shiftSS]
+          | fuel => simp [shiftSS]
+    | ub => right; rw [hs] at happ; simp only at happ; rw [happ]; trivial
+    | fuel => right; rw [hs] at happ; simp only at happ; rw [happ]; trivial
 
 end Jomini.TextReader
